@@ -148,7 +148,10 @@ class isoparser(object):
 
         if len(components) > 3 and components[3] == 24:
             components[3] = 0
-            return datetime(*components) + timedelta(days=1)
+            try:
+                return datetime(*components) + timedelta(days=1)
+            except OverflowError as e:
+                six.raise_from(ValueError('Date out of range'), e)
 
         return datetime(*components)
 
